@@ -69,6 +69,11 @@ impl Report {
     pub fn absorb_exec(&mut self, out: &crate::proto::ExecOut) {
         self.execs += 1;
         self.count("commands_run", out.steps.len() as u64);
+        if out.end == "stalled" {
+            // the host did not schedule the child for 9x its wall-clock budget: nothing
+            // observed in this scenario can be trusted
+            self.harness_error = Some("host stalled: a child did not finish within 9x its wall-clock budget without using its CPU budget".into());
+        }
         if let Some(f) = &out.fin {
             self.traces.push(f.trace);
             self.sim_ns += f.mono_advance_ns;
@@ -299,7 +304,9 @@ pub fn run_check(check: &dyn Check, cfg: &RunCfg) -> i32 {
             }
         }
         if let Some(h) = rep.harness_error {
+            // violations of a scenario with a harness error are not believed
             harness_errors.push(format!("scenario {}: {}", rep.n, h));
+            continue;
         }
         for v in rep.violations {
             viol.push((rep.n, v));
